@@ -471,6 +471,7 @@ func (s *Store) Open() error {
 	}
 
 	opts.MemTableSize = 128 * 1024 * 1024 // 128MB
+	opts.MemTableSize = int64(verifhook.Knob("store.memTableSize", int(opts.MemTableSize)))
 	opts.DetectConflicts = false
 	opts.NumVersionsToKeep = 1
 
